@@ -236,6 +236,7 @@ def check(pid, tier):
                  "S18+S19 precondition: type arguments are hashable; arities 0..4 (each a full proof; larger arities not covered); S19: typing.get_args(typ) returns a tuple, is_union is uninterpreted and does not raise"},
         functions=["helpers.not_none_type_arg (S18, real AST)", "helpers.is_optional (S19, real AST)", "common.expr_or_maybe_none (S20, called for real; enumeration)", "UnionUnpackerBuilder._add_body", "LiteralUnpackerBuilder._add_body", "pack_union", "pack_literal", "expr_or_maybe_none (through the texts they produce)"],
         crashes=crashes,
+        bounded=[f"{o['id']}: {o['unit']}" for o in obs if o.get("bounded")],
     )
 
 
